@@ -3,6 +3,12 @@ import Mathlib.Algebra.CharZero.Defs
 import Mathlib.Tactic.Ring
 import Mathlib.Tactic.FieldSimp
 import Mathlib.Tactic.Linarith
+import Mathlib.Analysis.Calculus.Deriv.Slope
+import Mathlib.Analysis.Calculus.Deriv.Comp
+import Mathlib.Analysis.Calculus.Deriv.Pow
+import Mathlib.Analysis.Calculus.Deriv.Inv
+import Mathlib.Analysis.Calculus.Deriv.Add
+import Mathlib.Analysis.Calculus.Deriv.Mul
 import BioscrapeModel.Proofs.Laws
 import BioscrapeModel.Model.Sensitivity
 
@@ -12,8 +18,11 @@ C18 — reported Jacobians and parameter sensitivities match analytic derivative
 Stencil algebra over any linearly ordered field: each scheme returns the exact derivative on
 polynomials up to its order and its error on the next monomial is the classical leading term;
 orientation of the Jacobian; the parameter writes of `compute_Zj` end with the original values.
-General `C^k` error bounds (Taylor remainder) are not formalised: the check's oracle compares
-with symbolically differentiated rate equations within the scheme's bound.
+Over the reals, for every differentiable restriction of the rate equations (Hill, general expressions):
+each of the four difference quotients tends to the analytic derivative as the step tends to zero
+(`stencil_tendsto`, from Mathlib's `HasDerivAt`).  Quantitative `C^k` error bounds (Taylor remainder) are
+not formalised: the check's oracle compares with symbolically differentiated rate equations within the
+scheme's bound.
 -/
 set_option linter.unusedSectionVars false
 set_option linter.unusedSimpArgs false
@@ -125,5 +134,90 @@ theorem zj_restores_params (meth : DiffMethod) (orig cur : List α) (pj : Nat) (
 
 /-! ### Non-vacuity -/
 example : stencil .fourth (quartic (1 : ℚ) 2 3 4 5) (1 / 100) = 2 := fourth_order_exact 1 2 3 4 5 _ (by norm_num)
+
+
+/-! ### Convergence: every scheme tends to the analytic derivative
+
+Over the reals, for *any* differentiable restriction `f` of the rate equations to one coordinate (Hill functions,
+general expressions, … — not only polynomials): as the step tends to zero each of the four difference quotients of
+`compute_J` / `compute_Zj` tends to the analytic derivative `f'(0)`. -/
+
+section convergence
+open Filter Topology
+
+/-- the scaled slope `t⁻¹ (f (c t) − f 0)` tends to `c · f'(0)`. -/
+theorem scaled_slope_tendsto (f : ℝ → ℝ) (f' c : ℝ) (hf : HasDerivAt f f' 0) :
+    Tendsto (fun t : ℝ => t⁻¹ * (f (c * t) - f 0)) (𝓝[≠] 0) (𝓝 (c * f')) := by
+  have hin : HasDerivAt (fun t : ℝ => c * t) c 0 := by simpa using (hasDerivAt_id (0 : ℝ)).const_mul c
+  have hf0 : HasDerivAt f f' (c * 0) := by simpa using hf
+  have hg : HasDerivAt (fun t : ℝ => f (c * t)) (f' * c) 0 := HasDerivAt.comp (0 : ℝ) hf0 hin
+  have := hg.tendsto_slope_zero
+  simp only [zero_add, mul_zero, smul_eq_mul] at this
+  rwa [mul_comm f' c] at this
+
+theorem stencil_forward_tendsto (f : ℝ → ℝ) (f' : ℝ) (hf : HasDerivAt f f' 0) :
+    Tendsto (stencil .forward f) (𝓝[≠] 0) (𝓝 f') := by
+  have h1 := scaled_slope_tendsto f f' 1 hf
+  simp only [one_mul] at h1
+  refine h1.congr' ?_
+  filter_upwards [self_mem_nhdsWithin] with h hh
+  simp only [stencil]
+  field_simp
+
+theorem stencil_backward_tendsto (f : ℝ → ℝ) (f' : ℝ) (hf : HasDerivAt f f' 0) :
+    Tendsto (stencil .backward f) (𝓝[≠] 0) (𝓝 f') := by
+  have h1 := (scaled_slope_tendsto f f' (-1) hf).neg
+  simp only [neg_mul, one_mul, neg_neg] at h1
+  refine h1.congr' ?_
+  filter_upwards [self_mem_nhdsWithin] with h hh
+  have hh' : h ≠ 0 := hh
+  simp only [stencil]
+  field_simp
+  ring
+
+theorem stencil_central_tendsto (f : ℝ → ℝ) (f' : ℝ) (hf : HasDerivAt f f' 0) :
+    Tendsto (stencil .central f) (𝓝[≠] 0) (𝓝 f') := by
+  have h1 := ((scaled_slope_tendsto f f' 1 hf).sub (scaled_slope_tendsto f f' (-1) hf)).div_const 2
+  have e : (1 * f' - -1 * f') / 2 = f' := by ring
+  rw [e] at h1
+  refine h1.congr' ?_
+  filter_upwards [self_mem_nhdsWithin] with h hh
+  have hh' : h ≠ 0 := hh
+  simp only [stencil, one_mul, neg_mul]
+  push_cast
+  field_simp
+  ring
+
+theorem stencil_fourth_tendsto (f : ℝ → ℝ) (f' : ℝ) (hf : HasDerivAt f f' 0) :
+    Tendsto (stencil .fourth f) (𝓝[≠] 0) (𝓝 f') := by
+  have h1 := (((((scaled_slope_tendsto f f' 2 hf).neg).add ((scaled_slope_tendsto f f' 1 hf).const_mul 8)).sub
+    ((scaled_slope_tendsto f f' (-1) hf).const_mul 8)).add (scaled_slope_tendsto f f' (-2) hf)).div_const 12
+  have e : (-(2 * f') + 8 * (1 * f') - 8 * (-1 * f') + -2 * f') / 12 = f' := by ring
+  rw [e] at h1
+  refine h1.congr' ?_
+  filter_upwards [self_mem_nhdsWithin] with h hh
+  have hh' : h ≠ 0 := hh
+  simp only [stencil, one_mul, neg_mul]
+  push_cast
+  field_simp
+  ring
+
+/-- **all four schemes converge to the analytic derivative.** -/
+theorem stencil_tendsto (meth : DiffMethod) (f : ℝ → ℝ) (f' : ℝ) (hf : HasDerivAt f f' 0) :
+    Tendsto (stencil meth f) (𝓝[≠] 0) (𝓝 f') := by
+  cases meth
+  · exact stencil_fourth_tendsto f f' hf
+  · exact stencil_central_tendsto f f' hf
+  · exact stencil_backward_tendsto f f' hf
+  · exact stencil_forward_tendsto f f' hf
+
+/-- the hypothesis is met by a Hill-type restriction `s ↦ (2 + s)² / (1 + (2 + s)²)` (non-polynomial). -/
+example : ∃ f', HasDerivAt (fun s : ℝ => (2 + s) ^ 2 / (1 + (2 + s) ^ 2)) f' 0 := by
+  have hnum : HasDerivAt (fun s : ℝ => (2 + s) ^ 2) (2 * (2 + 0) ^ 1 * 1) 0 := by
+    simpa using ((hasDerivAt_id (0 : ℝ)).const_add 2).fun_pow 2
+  have hden : HasDerivAt (fun s : ℝ => 1 + (2 + s) ^ 2) (2 * (2 + 0) ^ 1 * 1) 0 := hnum.const_add 1
+  exact ⟨_, hnum.div hden (by norm_num)⟩
+
+end convergence
 
 end Bioscrape.C18
